@@ -148,6 +148,17 @@ pub fn scratch_root() -> PathBuf {
     static ROOT: OnceLock<PathBuf> = OnceLock::new();
     ROOT.get_or_init(|| {
         let base = if Path::new("/dev/shm").is_dir() { PathBuf::from("/dev/shm") } else { std::env::temp_dir() };
+        // remove what earlier runs that were killed (timeouts) left behind
+        if let Ok(rd) = std::fs::read_dir(&base) {
+            for e in rd.flatten() {
+                let name = e.file_name().to_string_lossy().to_string();
+                if let Some(pid) = name.strip_prefix("arroy-verif-") {
+                    if !Path::new(&format!("/proc/{pid}")).exists() {
+                        let _ = std::fs::remove_dir_all(e.path());
+                    }
+                }
+            }
+        }
         let p = base.join(format!("arroy-verif-{}", std::process::id()));
         std::fs::create_dir_all(&p).expect("create scratch root");
         p
